@@ -269,6 +269,8 @@ theorem insertDeriv_wf_partial (p d : ObjDump) (key : String) (ov : Bool) (r : O
   rename_i hn
   split at h
   · cases h
+  split at h
+  · cases h
   have e1 : asFloat (cloneBare d) = some (cloneBare d) := by simp [asFloat, cloneBare, bare, hf]
   rw [e1] at h
   simp only [] at h
